@@ -1274,3 +1274,35 @@ Proof. intros R H E. destruct (step_ext _ _ _ _ _ R H) as [X _]. apply (X _ _ E)
 Lemma step_unit_le c s l s' os u un : reachf c s -> step s l = Some (s', os) -> nth_error (units s) u = Some un ->
   exists un', nth_error (units s') u = Some un' /\ unit_le un un'.
 Proof. intros R H E. destruct (step_ext _ _ _ _ _ R H) as [_ X]. apply (X _ _ E). Qed.
+
+(** * Concrete configurations and traces for the non-vacuity examples *)
+Definition ex_m : bytes := [109%N].                         (* method "m" *)
+Definition ex_cfg : config :=
+  {| cf_K := 1; cf_push := false; cf_builtin := false; cf_methods := [ex_m]; cf_unblock := false |}.
+Definition ex_cfg2 : config :=
+  {| cf_K := 2; cf_push := true; cf_builtin := true; cf_methods := [ex_m]; cf_unblock := false |}.
+Definition ex_msg (id method params : bytes) : jmsg :=
+  {| j_id := id; j_method := method; j_params := params; j_error := None; j_result := []; j_err := None |}.
+Definition ex_call (id params : bytes) : jmsg := ex_msg id ex_m params.
+Definition ex_note (params : bytes) : jmsg := ex_msg [] ex_m params.
+Definition st_of (c : config) (tr : list label) : state :=
+  match run (init_of c) tr with Some (s, _) => s | None => init_of c end.
+Definition obs_of (c : config) (tr : list label) : list (list obs) :=
+  match run (init_of c) tr with Some (_, oss) => oss | None => [] end.
+
+Lemma reach_st_of c tr : run (init_of c) tr <> None -> reach c (st_of c tr).
+Proof.
+  unfold st_of. destruct (run (init_of c) tr) as [[s oss]|] eqn:E; [|congruence].
+  intros _. eapply run_reach; [apply reach_init|exact E].
+Qed.
+
+Lemma run_st_of c tr : run (init_of c) tr <> None -> run (init_of c) tr = Some (st_of c tr, obs_of c tr).
+Proof. unfold st_of, obs_of. destruct (run (init_of c) tr) as [[s oss]|]; congruence. Qed.
+
+(* a request "1" with params [] is read, dispatched and released; its handler runs *)
+Definition ex_tr_running : list label :=
+  [LStart; LRelNext; LFeed (FMsg (InMsgs false [ex_call [49%N] [91;93]%N])); LRelRead; LRelBarrier; LRelAcquire 0].
+(* ... its handler has returned and the reply is about to be delivered *)
+Definition ex_tr_atdeliver : list label :=
+  ex_tr_running ++ [LGate [91;93]%N (ORes [50%N]); LRelHandled 0].
+Definition ex_tr_delivered : list label := ex_tr_atdeliver ++ [LRelDeliver 0].
